@@ -186,8 +186,13 @@ def _wrap(draw, fd, e, rsp, mode, exp_type, el_ok):
         if (direct and e.name in ZERO_SCALE_OK and
                 not _has_rejection(fd) and draw(st.booleans())):
             s = 0.0
-        if mode == 'functional' and s < 0 and zoo.is_linear_tree(fd):
-            s = -s      # see the catalogue entry 'ZeroFunctional*neg'
+        if mode == 'functional' and s < 0 and (
+                zoo.is_linear_tree(fd) or zoo.contains_conj(fd)):
+            # linear functionals (also hidden behind explicit conjugates,
+            # e.g. IndicatorZero.convex_conj) turn f * s into s * f, whose
+            # proximal rejects s < 0: the catalogue entry
+            # 'ZeroFunctional*neg' exercises that on purpose
+            s = -s
         return {'t': 'argscale', 'f': fd, 's': s}
     if rule == 'argscale_el':
         v = zoo.vec(draw(zoo.vecs(n, positive=True)), n)
@@ -658,9 +663,27 @@ def run_case(desc):
                                                         inner.detail))
         parts = v.signature.split('|')
         parts[2] = 'rule:{}@{}'.format(zoo.rule_name(fd), desc['mode'])
+        if _negative_scaling_of_linear(desc):
+            # same root cause as the catalogue entry 'ZeroFunctional*neg'
+            parts[2] = 'ZeroFunctional*neg'
         raise Violation('|'.join(parts),
                         '[{}; operands pass on their own] {}'.format(
                             zoo.site_of(fd), v.detail))
+
+
+def _negative_scaling_of_linear(desc):
+    """f * s with s < 0 for an operand the library flags as linear."""
+    fd = desc['func']
+    if not (desc['mode'] == 'functional' and fd['t'] == 'argscale' and
+            not isinstance(fd['s'], dict) and float(fd['s']) < 0):
+        return False
+    try:
+        rsp = R.RSpace(desc['space'])
+        space = build.build_space(desc['space'])
+        _, h = zoo.build_odl(fd['f'], space, 'functional', rsp)
+        return bool(h.is_linear)
+    except Exception:  # noqa
+        return False
 
 
 def _sub_cases(desc):
